@@ -32,6 +32,13 @@ def main(ctx):
             op = ["garbage", 1, 3000, rnd.randrange(1, 1 << 30)]
         sched = [["stream", 1]] + ([["seq", 1, a["prefix"]]] if a["prefix"] > 0 else []) + [op, ["stream", 0], ["seq", 1, nsuf]]
         behs.append({"fam": "c04", "sid": suffix_sid, "streams": [[suffix_sid, 10], [a["sid"], 10]], "rcfg": {"max_cache": 100000}, "sched": sched})
+    # extreme but well-formed packets built by the wire-format specification (family c04x)
+    advx = recvlib.gen_chan(ctx, "c04x", infos, sel=lambda i: i["sid"] == infos[0]["sid"])
+    total += sum(len(a["adv"][1]) for a in advx)
+    ctx.notes["c04x_packets_built_by_wire_spec"] = sum(len(a["adv"][1]) for a in advx)
+    for a in senderlib.sample(advx, 60 if quick else None, ctx.seed):
+        behs.append({"fam": "c04", "sid": suffix_sid, "streams": [[suffix_sid, 10], [a["sid"], 10]], "rcfg": {"max_cache": 100000}, "what": a["what"],
+                     "sched": [["stream", 1], list(a["adv"]), ["stream", 0], ["seq", 1, nsuf]]})
     # all byte strings of length <= 2 exhaustively (quick) / <= 3 (thorough: 16.8 M strings, split by leading byte ranges is not
     # possible with this operation, so length 3 is covered by 2 M seeded samples in quick and exhaustively in thorough)
     behs.append({"fam": "c04", "sid": suffix_sid, "streams": [[suffix_sid, 10], [0, 10]], "rcfg": {"max_cache": 100000},
@@ -45,7 +52,7 @@ def main(ctx):
            "traces_validated_against_impl": ctx.traces, "events_judged_by_monitor": ctx.events,
            "adversarial_operations_enumerated_by_tlc": total, "replayed": len(behs),
            "exhaustive": False,
-           "explanation": "TLC enumerates (valid prefix length) x (every single-byte substitution in the header region of packet i, for every packet i | 30 crafted FDT instances with missing / zero / huge / non-numeric / inconsistent attributes or malformed XML, each followed by the object packets | seeded mutation sequences: bit flips, header-field edits, truncation, extension, splicing | garbage) over real sessions of all schemes and signalling modes; plus every byte string of length <= 2 (thorough: <= 3) and seeded longer ones.  The mass cases are pushed into ONE real receiver and logged aggregated (count, ok, err, panic, slowest call, peak heap per call; offenders itemised); afterwards a valid session with fresh TOIs on the same endpoint and TSI must be delivered exactly (C01 predicate).  Hangs are caught by a watchdog (3 s per call)"}
+           "explanation": "TLC enumerates (valid prefix length) x (every single-byte substitution in the header region of packet i, for every packet i | 30 crafted FDT instances with missing / zero / huge / non-numeric / inconsistent attributes or malformed XML, each followed by the object packets | seeded mutation sequences: bit flips, header-field edits, truncation, extension, splicing | garbage | packets with an EXT_FTI on the limits of the field widths and of the FEC schemes, built with Wire.tla's encoder: scheme x B x E x transfer length class x scheme-specific values x (SBN, ESI) class) over real sessions of all schemes and signalling modes; plus every byte string of length <= 2 (thorough: <= 3) and seeded longer ones.  The mass cases are pushed into ONE real receiver and logged aggregated (count, ok, err, panic, slowest call, peak heap per call; offenders itemised); afterwards a valid session with fresh TOIs on the same endpoint and TSI must be delivered exactly (C01 predicate).  Hangs are caught by a watchdog (3 s per call)"}
     return finish(ctx, "fault_enumeration", dict(cov, evaluations=max(1, ctx.events), distinct_nontrivial=max(2, len(behs)),
                   rule="one evaluation = one trace event judged by the monitor (a batch event aggregates up to 10^5 pushed datagrams); distinct = adversarial behaviours (prefix, operation, session) replayed"),
                   ["heap is measured by a counting global allocator in the harness process", "time limits: 1 s per datagram (monitor), 3 s watchdog"])
